@@ -149,6 +149,7 @@ inductive RopPath where
   | cd (newPwd : String)
   | getopts (name value : String) (optarg : Option String) (optind : String)
   | assign (n : Name) (v : String)
+  | declPortable (attr : VAttr) (operands : List String)
 
 def ropTable : List (String × List Op × RopPath × List Name) :=
   let ro (n : Name) := Op.readonly n .global 1
@@ -158,7 +159,9 @@ def ropTable : List (String × List Op × RopPath × List Name) :=
    ("optind", [ro "OPTIND"], .getopts "o" "a" none "2", ["OPTIND", "o", "OPTARG"]),
    ("optarg", [as "OPTARG" "0", ro "OPTARG"], .getopts "o" "a" (some "v") "3", ["OPTARG", "o", "OPTIND"]),
    ("optargu", [as "OPTARG" "0", ro "OPTARG"], .getopts "o" "a" none "2", ["OPTARG", "o", "OPTIND"]),
-   ("linenoas", [ro "LINENO"], .assign "LINENO" "5", ["LINENO"])]
+   ("linenoas", [ro "LINENO"], .assign "LINENO" "5", ["LINENO"]),
+   ("portexp", [], .declPortable .export ["1a=1", "o=2"], ["1a", "o"]),
+   ("portro", [as "PWD" "/", .export "PWD" .global true], .declPortable .readOnly ["PWD=5", "o=1"], ["PWD", "o"])]
 
 def runRopWith {σ} (I : Iface σ) (s0 : σ) (k : String) : String :=
   match ropTable.find? (·.1 = k) with
@@ -171,6 +174,9 @@ def runRopWith {σ} (I : Iface σ) (s0 : σ) (k : String) : String :=
         let r := runOps I s1 (getoptsReportOps name value optarg optind); (r.1, if r.2 then "r2" else "r0")
       | .assign n v =>
         let r := runOps I s1 [.assign n .global (.scalar v) none]; (r.1, if r.2 then "x2" else "r0")
+      | .declPortable attr operands =>
+        let r := foldErrors (executeFieldP I ⟨operands, [(attr, true)], .global⟩ true) operands (s1, 0)
+        (r.1, if r.2 = 0 then "r0" else "r1")
     " | ".intercalate (line :: names.map fun n => s!"{n}={showV (I.get s2 n)}")
 
 def runRop (k : String) : String :=
